@@ -935,8 +935,22 @@ func checkFiltersNeverOverwritten(c *Ctx, rule string) {
 			if !hit {
 				return
 			}
-			if isLocalAlloc(accessPath(base).Root) {
-				return // a value under construction
+			if root := accessPath(base).Root; isLocalAlloc(root) {
+				// a value under construction – unless the cell holds a COPY of a declared value
+				// (`for _, bd := range ig.Block { bd.Filter = Filter{} … coldef{BlockData: bd} }`)
+				copied := false
+				if al, isAl := root.(*ssa.Alloc); isAl {
+					for _, ref := range *al.Referrers() {
+						if ws, isSt := ref.(*ssa.Store); isSt && ws.Addr == ssa.Value(al) {
+							if _, isK := ws.Val.(*ssa.Const); !isK {
+								copied = true
+							}
+						}
+					}
+				}
+				if !copied {
+					return
+				}
 			}
 			n++
 			c.Violation(rule, fmt.Sprintf("%s/assigns-%s#%d", fnName(fn), name, n), st.Pos(),
